@@ -226,8 +226,11 @@ read_string_locked(kdump_ctx_t *ctx, kdump_addrspace_t as, kdump_addr_t addr,
 		pio.addr.as = as;
 		pio.addr.addr = page_align(ctx, addr);
 		ret = get_page_maybe_xlat(&pio);
-		if (ret != KDUMP_OK)
+		if (ret != KDUMP_OK) {
+			if (str)
+				free(str);
 			return ret;
+		}
 
 		off = addr % get_page_size(ctx);
 		partlen = get_page_size(ctx) - off;
